@@ -69,7 +69,7 @@ SPAN_SPACE = {
 
 def library(case, base='test'):
     """equipment JSON with the Span / SI variations of the case applied"""
-    eq = c.eqpt_json({'test': 'test', 'example': 'eqpt_config.json'}[case.get('eq', base)])
+    eq = c.eqpt_json({'test': 'test', 'example': 'eqpt_config.json', 'multiband': 'eqpt_config_multiband.json'}[case.get('eq', base)])
     sp = eq['Span'][0]
     sp['padding'] = case.get('padding', 10)
     sp['EOL'] = case.get('EOL', 0)
@@ -98,6 +98,18 @@ def library(case, base='test'):
     return eq
 
 
+CB = {'f_min': 191.3e12, 'f_max': 196.1e12, 'spacing': 50e9}
+LB = {'f_min': 186.6e12, 'f_max': 190.0e12, 'spacing': 50e9}
+
+
+def roadm_params(case, sites):
+    """ROADM design bands: 'C' (single band) or 'CL' (two bands: auto-design must build a multiband line system)"""
+    if case.get('eq') != 'multiband':
+        return None
+    bands = [CB, LB] if case.get('bands', 'C') == 'CL' else [CB]
+    return {s: {'params': {'design_bands': bands}} for s in sites}
+
+
 def topology(case):
     sites, links = GRAPHS[case['graph']]
     ls = []
@@ -105,9 +117,11 @@ def topology(case):
         if k == 0:
             fwd, rev = chain(case['chain']), chain(case.get('chain_rev', 'F80'))
         else:
-            fwd, rev = chain(['F80', 'F80_E_F70', 'F40_U_F30'][k % 3]), chain(['F80', 'F120'][k % 2])
+            # a two-band design must not meet operator-placed single-band amplifiers (documented as inconsistent)
+            mid = 'F80_F60' if case.get('bands') == 'CL' else 'F80_E_F70'
+            fwd, rev = chain(['F80', mid, 'F40_U_F30'][k % 3]), chain(['F80', 'F120'][k % 2])
         ls.append((a, b, fwd, rev))
-    return c.build_topology(sites, ls)
+    return c.build_topology(sites, ls, roadm_params=roadm_params(case, sites))
 
 
 def consistent(case):
